@@ -73,6 +73,8 @@ def gen_spec(rng, max_nodes=8, max_vars=6, p_alias=0.3, allow_cycles=True, allow
     vars_.append({'type': rng.choice(VAR_TYPES), 'seed': j + 1, 'shape': rng.choice([(), (2,), (2, 3)]), 'meta': meta})
     if numpy_values and rng.random() < 0.25:
       vars_[-1]['np'] = True   # the Variable holds a (mutable) numpy array instead of a jax array
+    if numpy_values and rng.random() < 0.2:
+      vars_[-1]['meta']['notes'] = ['n%d' % j, {'k': j}]   # a MUTABLE metadata value (list holding a dict)
 
   def add_attr(parent, ref):
     p = nodes[parent]
@@ -190,7 +192,8 @@ def build(spec):
   import jax.numpy as jnp
   C = classes()
   nodes, vars_ = spec['nodes'], spec['vars']
-  var_objs = [C[v['type']](value_of(v['seed'], v['shape']) if v.get('np') else jnp.asarray(value_of(v['seed'], v['shape'])), **v['meta'])
+  import copy
+  var_objs = [C[v['type']](value_of(v['seed'], v['shape']) if v.get('np') else jnp.asarray(value_of(v['seed'], v['shape'])), **copy.deepcopy(v['meta']))
               for v in vars_]
   node_objs = [None] * len(nodes)
   for i, n in enumerate(nodes):
